@@ -674,6 +674,11 @@ def _ode_programs(fam):
     return pre_stmts, post_stmts
 
 
+def _prog_size(prog):
+    """order used to pick the smallest failing program: statements, then symbols read"""
+    return (len(prog), sum(len(_reads(s)) for s in prog))
+
+
 def _df_worker(task):
     fam, root = task
     root = _tup(root)
@@ -692,7 +697,7 @@ def _df_worker(task):
         res = _check_program(prog, fam.get('level', 'full'))
         for key, detail in res.items():
             old = fails.get(key)
-            cand = (len(prog), _show(prog), detail, prog)
+            cand = (_prog_size(prog), _show(prog), detail, prog)
             if old is None or cand[:2] < old[:2]:
                 fails[key] = cand
 
